@@ -97,6 +97,10 @@ type genesis struct {
 	// tickets placed in the genesis accumulator: (validator, attempt) and identifier
 	prefill    [][2]int
 	prefillIDs []types.TicketID
+	programs   map[types.ServiceID]*svcProgram
+	// the node is started with an ancestry list (the genesis header): it then maintains the list and checks
+	// lookup anchors of work reports against it
+	withAncestry bool
 }
 
 func validatorsData() types.ValidatorsData {
@@ -110,7 +114,8 @@ func validatorsData() types.ValidatorsData {
 // mkGenesis builds a synthetic tiny-spec genesis state from the tape.
 func mkGenesis(t *sim.Tape) *genesis {
 	loadValidators()
-	g := &genesis{solicited: map[types.ServiceID][][]byte{}}
+	g := &genesis{solicited: map[types.ServiceID][][]byte{}, programs: map[types.ServiceID]*svcProgram{}}
+	g.withAncestry = t.Bool("with_ancestry")
 	st := &g.state
 	vd := validatorsData()
 	st.Iota = append(types.ValidatorsData(nil), vd...)
@@ -182,20 +187,50 @@ func mkGenesis(t *sim.Tape) *genesis {
 	st.Delta = types.ServiceAccountState{}
 	nSvc := t.Range(1, 3, "nsvc")
 	for i := 0; i < nSvc; i++ {
-		id := types.ServiceID(70000 + 11*i)
-		g.svcIDs = append(g.svcIDs, id)
+		g.svcIDs = append(g.svcIDs, types.ServiceID(70000+11*i))
+	}
+	for i := 0; i < nSvc; i++ {
+		id := g.svcIDs[i]
+		// the service's accumulation code
+		prog := &svcProgram{id: id, assign: -1, yield: t.Prob(2, 3, "svc_yields")}
+		if t.Prob(1, 2, "svc_assigns") {
+			prog.assign = i % types.CoresCount // service i is the assigner of core i mod C (see χ below)
+		}
+		if nSvc > 1 && t.Prob(1, 2, "svc_transfers") {
+			for k := 0; k < 1+t.Choose(2, "svc_nx"); k++ {
+				prog.xfers = append(prog.xfers, svcXfer{dest: g.svcIDs[(i+1+t.Choose(nSvc-1, "svc_dest"))%nSvc], amt: uint64(1 + t.Choose(20, "svc_amt")), gas: uint64(2000 + 500*t.Choose(3, "svc_tgas"))})
+			}
+		}
+		prog.meta = encodeMetaCode(buildSvcProgram(prog, g.svcIDs))
+		prog.codeH = h256(prog.meta)
+		g.programs[id] = prog
 		ac := types.ServiceAccount{PreimageLookup: types.PreimagesMapEntry{}, LookupDict: types.LookupMetaMapEntry{}, StorageDict: types.Storage{}}
 		// a stored preimage with its lookup entry, storage entries, and solicited-but-unprovided preimages
 		stored := []byte(fmt.Sprintf("stored-preimage-of-%d", id))
 		ac.PreimageLookup[h256(stored)] = stored
 		ac.LookupDict[types.LookupMetaMapkey{Hash: h256(stored), Length: types.U32(len(stored))}] = types.TimeSlotSet{1}
+		ac.PreimageLookup[prog.codeH] = append(types.ByteSequence(nil), prog.meta...)
+		ac.LookupDict[types.LookupMetaMapkey{Hash: prog.codeH, Length: types.U32(len(prog.meta))}] = types.TimeSlotSet{0}
+		// a well-formed state may also hold a stored preimage whose lookup entry lists no slot, two or three slots
+		// (a node only gets there through SetState / an imported snapshot): exported and re-imported like any other
+		if t.Prob(1, 2, "odd_lookup") {
+			for k, slots := range []types.TimeSlotSet{{}, {2, 5}, {2, 5, 9}} {
+				if k > 0 && !t.Bool("odd_lookup_more") {
+					continue
+				}
+				blob := []byte(fmt.Sprintf("odd-preimage-%d-%d", id, k))
+				ac.PreimageLookup[h256(blob)] = blob
+				ac.LookupDict[types.LookupMetaMapkey{Hash: h256(blob), Length: types.U32(len(blob))}] = slots
+			}
+		}
 		nStorage := t.Choose(3, "nstorage")
 		for k := 0; k < nStorage; k++ {
 			ac.StorageDict[fmt.Sprintf("key-%d", k)] = types.ByteSequence(fmt.Sprintf("value-%d-%d", id, k))
 		}
 		nSolicited := t.Range(1, 4, "nsolicited")
 		for k := 0; k < nSolicited; k++ {
-			blob := []byte(fmt.Sprintf("solicited-%d-%d-%s", id, k, string(t.Bytes(2, "blob"))))
+			// the first octet is free: the order of blobs must not follow the order of the services that want them
+			blob := []byte(fmt.Sprintf("%c-solicited-%d-%d-%s", 'a'+byte(t.Choose(26, "blob_first")), id, k, string(t.Bytes(2, "blob"))))
 			g.solicited[id] = append(g.solicited[id], blob)
 			ac.LookupDict[types.LookupMetaMapkey{Hash: h256(blob), Length: types.U32(len(blob))}] = types.TimeSlotSet{}
 		}
@@ -209,12 +244,12 @@ func mkGenesis(t *sim.Tape) *genesis {
 			items += 2
 			octets += 81 + uint64(k.Length)
 		}
-		ac.ServiceInfo = types.ServiceInfo{CodeHash: h256([]byte{byte(i), 0xC0}), Balance: types.U64(100 + 10*items + octets + 100000), MinItemGas: 10, MinMemoGas: 10, Items: types.U32(items), Bytes: types.U64(octets)}
+		ac.ServiceInfo = types.ServiceInfo{CodeHash: prog.codeH, Balance: types.U64(100 + 10*items + octets + 100000000), MinItemGas: 10, MinMemoGas: 10, Items: types.U32(items), Bytes: types.U64(octets)}
 		st.Delta[id] = ac
 	}
 	st.Chi.Bless, st.Chi.Designate, st.Chi.CreateAcct = g.svcIDs[0], g.svcIDs[0], g.svcIDs[0]
 	for c := range st.Chi.Assign {
-		st.Chi.Assign[c] = g.svcIDs[0]
+		st.Chi.Assign[c] = g.svcIDs[c%len(g.svcIDs)]
 	}
 	kvs, err := merklization.StateEncoder(*st)
 	if err != nil {
